@@ -119,10 +119,18 @@ class SumAggregator:
             sa = condition.literal.atom.symbol
             p = Predicate(sa.name, len(sa.arguments))
             unprojected: list[int] = []
+            group_vars: set[AST] = set()
             for index, arg in enumerate(sa.arguments):
                 local_vars = set(collect_ast(arg, "Variable"))
                 if not global_vars or not local_vars.issubset(global_vars):
                     unprojected.append(index)
+                else:
+                    group_vars.update(local_vars)
+            if not set(global_vars).issubset(group_vars):
+                # the bound holds per instance of the rule body; a body variable missing from the atom
+                # lets several instances derive atoms of the same group
+                alone = False
+                continue
             preds.add(AnnotatedPredicate(p, tuple(unprojected)))
 
         if len(preds) != 1:
